@@ -33,6 +33,17 @@
 //!     correct hit, the planted ranges must not be hits.  (Renaming a genuine file to another range of the same width or moving
 //!     it to another key directory is NOT done here: on HEAD such a file is served - recorded finding
 //!     /verif/findings/c12_renamed_same_width_served_as_hit.rs.)
+//!  S8 histories through the PUBLIC `chunk_cache::get_cache` (the per-directory CacheManager; this is how cas_client::RemoteClient
+//!     opens the cache) in ONE process.  (a) put through a handle from get_cache, get (hit: the entry is now marked verified), drop
+//!     every handle (= cache closed), damage the item file (one bit flipped in the data region / in the header, truncated by one
+//!     byte, content replaced by other bytes of the same length, deleted), get_cache for the same directory again, get: a miss or
+//!     an error, never bytes that were not put; re-put, get.  Control: the same history with DiskCache::initialize.  (b) one
+//!     accountant per directory across generations: get_cache + put + drop every handle; get_cache again (h2); get_cache a third
+//!     time while h2 is alive (h3); 40 puts of items of a few hundred bytes alternating through h2 and h3 under a capacity of
+//!     about five items: after every insertion the cache files on disk total <= capacity, and every item whose file is on disk is
+//!     a hit through h2 AND through h3 (a file on disk that a handle does not serve is a file its instance does not track);
+//!     finally h2 and h3 must be the same instance (`Arc::ptr_eq`).  Also two get_cache calls in the first generation.
+//!     No file is renamed or planted here (see the recorded finding mentioned under S7).
 //!  S5 (last, can be skipped with VERIF_C12_SKIP_FOREIGN_DIRS=1) directories with foreign names inside a prefix directory.
 //!
 //! Deterministic inputs from VERIF_SEED (default 0); thread schedules are whatever the machine produces, so the races are
@@ -157,7 +168,7 @@ fn open_clean(dir: &Path, capacity: u64, ctx: &str) -> Result<DiskCache, String>
     }
 }
 /// put of the model bytes of (k, s..e); Ok(true) when the put succeeded
-fn put(c: &DiskCache, k: u64, s: u32, e: u32, ctx: &str) -> Result<bool, String> {
+fn put(c: &dyn ChunkCache, k: u64, s: u32, e: u32, ctx: &str) -> Result<bool, String> {
     let (off, data) = payload(k, s, e);
     let key = key_of(k);
     match guarded(&format!("{ctx}: put(key#{k}, [{s},{e}), {} bytes)", data.len()), || c.put(&key, &r(s, e), &off, &data))? {
@@ -169,7 +180,7 @@ fn put(c: &DiskCache, k: u64, s: u32, e: u32, ctx: &str) -> Result<bool, String>
     }
 }
 /// get of (k, s..e) compared with the model; Ok(true) = correct hit, Ok(false) = miss or error
-fn get(c: &DiskCache, k: u64, s: u32, e: u32, stored: bool, ctx: &str) -> Result<bool, String> {
+fn get(c: &dyn ChunkCache, k: u64, s: u32, e: u32, stored: bool, ctx: &str) -> Result<bool, String> {
     let key = key_of(k);
     let what = format!("{ctx}: get(key#{k}, [{s},{e}))");
     match guarded(&what, || c.get(&key, &r(s, e)))? {
@@ -963,6 +974,146 @@ fn s7_names_of_every_length(seed: u64) -> W {
     Ok(())
 }
 
+/// S8: histories through the public get_cache / CacheManager
+fn s8_get_cache(seed: u64) -> W {
+    use std::sync::Arc;
+    let open_mgr = |dir: &Path, cap: u64, ctx: &str| -> Result<Arc<dyn ChunkCache>, String> {
+        let cfg = CacheConfig { cache_directory: dir.to_path_buf(), cache_size: cap };
+        match guarded(&format!("{ctx}: chunk_cache::get_cache(cache_size={cap})"), || chunk_cache::get_cache(&cfg))? {
+            Ok(c) => Ok(c),
+            Err(e) => infra(format!("{ctx}: get_cache failed on an undamaged directory: {e}")),
+        }
+    };
+    // (a) damage while "closed"
+    let cap = 1u64 << 20;
+    let k = 9970 + 3 * seed + 1;
+    let (s, e) = (2u32, 9u32);
+    let header_len = 4 * (e - s + 2) as u64;
+    let total = item_size_bound(k, s, e);
+    for via_manager in [true, false] {
+        for case in ["flip a data bit", "flip a header bit", "truncate by one byte", "replace the content by other bytes of the same length", "delete the file"] {
+            let dir = tmp();
+            let root = dir.path();
+            let how = if via_manager { "chunk_cache::get_cache" } else { "DiskCache::initialize (control)" };
+            let ctx0 = format!("S8a seed {seed}: cache opened with {how} (capacity {cap}); put(key#{k}, [{s},{e})) ({total} bytes on disk); get (hit)");
+            {
+                let h: Arc<dyn ChunkCache> = if via_manager { open_mgr(root, cap, &ctx0)? } else { Arc::new(open_clean(root, cap, &ctx0)?) };
+                let h_clone = h.clone();
+                if !put(&*h, k, s, e, &ctx0)? {
+                    infra(format!("{ctx0}: put failed"));
+                }
+                if !get(&*h_clone, k, s, e, true, &ctx0)? || !get(&*h, k, s + 1, e - 1, true, &ctx0)? {
+                    infra(format!("{ctx0}: the item just put is not a hit"));
+                }
+            } // every handle dropped: the cache is closed
+            let files = files_below(root);
+            if files.len() != 1 || files[0].1 != total {
+                infra(format!("{ctx0}: expected one file of {total} bytes, found {files:?}"));
+            }
+            let file = files[0].0.clone();
+            match case {
+                "flip a data bit" => flip(&file, 8 * (header_len + (total - header_len) / 2) + seed % 8),
+                "flip a header bit" => flip(&file, 8 * 9 + seed % 8),
+                "truncate by one byte" => {
+                    let f = std::fs::OpenOptions::new().write(true).open(&file).unwrap_or_else(|e| infra(format!("{case}: {e}")));
+                    f.set_len(total - 1).unwrap_or_else(|e| infra(format!("{case}: {e}")));
+                },
+                "replace the content by other bytes of the same length" => {
+                    let mut b = std::fs::read(&file).unwrap_or_else(|e| infra(format!("{case}: {e}")));
+                    for (i, x) in b.iter_mut().enumerate().skip(header_len as usize) {
+                        *x = x.wrapping_add(1 + (mix(seed, i as u64) % 200) as u8);
+                    }
+                    std::fs::write(&file, &b).unwrap_or_else(|e| infra(format!("{case}: {e}")));
+                },
+                _ => std::fs::remove_file(&file).unwrap_or_else(|e| infra(format!("{case}: {e}"))),
+            }
+            let ctx = format!("{ctx0}; every handle dropped (cache closed); item file damaged: {case}; the directory opened again with {how} in the same process");
+            let h: Arc<dyn ChunkCache> = if via_manager {
+                open_mgr(root, cap, &ctx)?
+            } else {
+                match open(root, cap, &ctx)? {
+                    Some(c) => Arc::new(c),
+                    None => continue,
+                }
+            };
+            // the file no longer holds what was put: a hit would have to return the put bytes, which it cannot - get() reports
+            // wrong bytes itself; a hit with the right bytes is impossible except by not reading the file
+            if get(&*h, k, s, e, true, &ctx)? {
+                return Err(format!("{ctx}: get(key#{k}, [{s},{e})) is a hit although the file no longer holds what was put"));
+            }
+            get(&*h, k, s + 2, e - 1, true, &ctx)?;
+            let ctx = format!("{ctx}; get missed; identical data re-put");
+            put(&*h, k, s, e, &ctx)?;
+            get(&*h, k, s, e, true, &ctx)?;
+            get(&*h, k, s + 1, e - 2, true, &ctx)?;
+        }
+    }
+    // (b) one accountant per directory across generations
+    {
+        let dir = tmp();
+        let root = dir.path();
+        let keys: Vec<u64> = (0..4).map(|j| 9990 + 30 * seed + 3 * j + 1).collect(); // chunks of at most 150 bytes
+        let cap = 5 * item_size_bound(keys[0], 0, 8).max(item_size_bound(keys[1], 0, 8));
+        let ctx0 = format!("S8b seed {seed}: capacity {cap}");
+        let g1a = open_mgr(root, cap, &ctx0)?;
+        let g1b = open_mgr(root, cap, &ctx0)?;
+        if !Arc::ptr_eq(&g1a, &g1b) {
+            return Err(format!("{ctx0}: two get_cache calls for one directory while the first handle is alive return two different cache instances"));
+        }
+        put(&*g1a, keys[0], 0, 3, &ctx0)?;
+        if !get(&*g1b, keys[0], 0, 3, true, &ctx0)? {
+            return Err(format!("{ctx0}: an item put through one handle of get_cache is not a hit through the other handle of the same directory"));
+        }
+        drop(g1a);
+        drop(g1b);
+        let h2 = open_mgr(root, cap, &ctx0)?;
+        let h3 = open_mgr(root, cap, &ctx0)?;
+        let ctx1 = format!("{ctx0}; get_cache (h1), put, every handle dropped; get_cache again (h2); get_cache a third time while h2 is alive (h3)");
+        // which item each file on disk belongs to (learnt by diffing the directory after each put)
+        let mut owner: HashMap<PathBuf, (u64, u32, u32)> = HashMap::new();
+        for f in files_below(root) {
+            owner.insert(f.0, (keys[0], 0, 3));
+        }
+        let mut rng = Rng(mix(seed, 0x58B));
+        for op in 0..40u32 {
+            let kk = keys[rng.below(keys.len() as u64) as usize];
+            let ss = 10 * (1 + rng.below(6) as u32);
+            let ee = ss + 4 + rng.below(5) as u32;
+            let (name, h) = if op % 2 == 0 { ("h2", &h2) } else { ("h3", &h3) };
+            let ctx = format!("{ctx1}; puts alternate through h2 and h3; put #{op} through {name}: (key#{kk}, [{ss},{ee})) of {} bytes", item_size_bound(kk, ss, ee));
+            if !put(&**h, kk, ss, ee, &ctx)? {
+                continue;
+            }
+            let files = files_below(root);
+            for f in &files {
+                owner.entry(f.0.clone()).or_insert((kk, ss, ee));
+            }
+            owner.retain(|p, _| files.iter().any(|f| &f.0 == p));
+            let bytes: u64 = files.iter().map(|f| f.1).sum();
+            if bytes > cap {
+                return Err(format!("{ctx}: after this insertion the cache directory holds {bytes} bytes in {} files, the capacity is {cap} (every item is far smaller than the capacity)", files.len()));
+            }
+            for (p, (ok, os, oe)) in &owner {
+                for (hn, hh) in [("h2", &h2), ("h3", &h3)] {
+                    if !get(&**hh, *ok, *os, *oe, true, &ctx)? {
+                        // the read may have self-healed (removed) a file; only a file that is still there counts
+                        if p.exists() {
+                            return Err(format!(
+                                "{ctx}: the file of item (key#{ok}, [{os},{oe})) is in the cache directory ({} files, {bytes} bytes) but {hn} does not serve it: the instance behind {hn} does not track a file that counts against the capacity of the directory",
+                                files.len()
+                            ));
+                        }
+                    }
+                }
+            }
+        }
+        if !Arc::ptr_eq(&h2, &h3) {
+            return Err(format!("{ctx1}: h2 and h3 are two different cache instances on one directory (Arc::ptr_eq is false), each bounding only its own files"));
+        }
+    }
+    Ok(())
+}
+
 /// S5: directories with foreign names inside a prefix directory (`<p>` = the 2-character name of the prefix directory):
 /// `<p>AA` is valid base64 of 3 bytes, i.e. shorter than a key; the other two do not start with `<p>`.
 /// All violations found are reported together.
@@ -1041,6 +1192,10 @@ fn run(seed: u64) -> W {
     if on("S7") {
         s7_names_of_every_length(seed)?;
         eprintln!("S7 done at {:?}", t.elapsed());
+    }
+    if on("S8") {
+        s8_get_cache(seed)?;
+        eprintln!("S8 done at {:?}", t.elapsed());
     }
     if on("S5") && std::env::var("VERIF_C12_SKIP_FOREIGN_DIRS").map_or(true, |v| v != "1") {
         s5_foreign_directories(seed)?;
